@@ -13,7 +13,7 @@ import (
 
 // hop is one operation of a heap program.
 type hop struct {
-	kind    byte // n z c a s g e u p w
+	kind    byte // n z c a s g e u p w t   (t: i = object, j = new payload length)
 	i, j    int
 	s1, s2  string // uuid / key, value
 	payload []byte
@@ -29,8 +29,8 @@ func (o hop) tok() string {
 		return fmt.Sprintf("s:%d:%s:%s", o.i, wh.HexS(o.s1), wh.HexS(o.s2))
 	case 'g':
 		return fmt.Sprintf("g:%d:%s", o.i, wh.HexS(o.s1))
-	case 'e':
-		return fmt.Sprintf("e:%d:%d", o.i, o.j)
+	case 'e', 't':
+		return fmt.Sprintf("%c:%d:%d", o.kind, o.i, o.j)
 	case 'u':
 		return fmt.Sprintf("u:%d:%s", o.i, wh.HexS(o.s1))
 	case 'p':
@@ -77,7 +77,7 @@ func parseHop(s string) (hop, error) {
 		o.i, o.s1, o.s2 = num(f[1]), str(f[2]), str(f[3])
 	case o.kind == 'g' && len(f) == 3:
 		o.i, o.s1 = num(f[1]), str(f[2])
-	case o.kind == 'e' && len(f) == 3:
+	case (o.kind == 'e' || o.kind == 't') && len(f) == 3:
 		o.i, o.j = num(f[1]), num(f[2])
 	case o.kind == 'u' && len(f) == 3:
 		o.i, o.s1 = num(f[1]), str(f[2])
@@ -130,6 +130,14 @@ func runHeap(ops []hop) string {
 			m := objs[o.i]
 			objs = append(objs, &message.Message{UUID: m.UUID, Payload: m.Payload, Metadata: m.Metadata})
 			res = "+"
+		case 't':
+			// a shorter view of the same buffer (what a consumer does when it cuts a frame off a read buffer)
+			m := objs[o.i]
+			res = "!"
+			if o.j <= len(m.Payload) {
+				m.Payload = m.Payload[:o.j]
+				res = "."
+			}
 		case 'w':
 			// through the forwarder envelope and back: what a decoder hands to a consumer
 			res = "!"
@@ -199,51 +207,78 @@ func heapVal(r *wh.Rng) string {
 func randomProgram(r *wh.Rng, maxLen, maxObjs int) []hop {
 	n := 2 + r.Intn(maxLen-1)
 	var ops []hop
-	objs := 0
+	var plen []int // payload length of every object (for the truncation op)
+	push := func(o hop) {
+		switch o.kind {
+		case 'n', 'z':
+			plen = append(plen, len(o.payload))
+		case 'c', 'a', 'w':
+			plen = append(plen, plen[o.i])
+		case 'p':
+			plen[o.i] = len(o.payload)
+		case 't':
+			plen[o.i] = o.j
+		}
+		ops = append(ops, o)
+	}
 	for len(ops) < n {
+		objs := len(plen)
 		if objs == 0 {
 			k := byte('n')
 			if r.Intn(6) == 0 {
 				k = 'z'
 			}
-			ops = append(ops, hop{kind: k, s1: genStr(r), payload: genPayload(r)})
-			objs++
+			push(hop{kind: k, s1: genStr(r), payload: genPayload(r)})
 			continue
 		}
 		i := r.Intn(objs)
-		switch x := r.Intn(22); {
+		switch x := r.Intn(25); {
+		case x >= 22 && objs < maxObjs:
+			// two views of one payload buffer: copy (or shallow copy), then one of them is cut shorter, then compared
+			if plen[i] == 0 {
+				push(hop{kind: 'p', i: i, payload: append([]byte("buffer-"), genPayload(r)...)})
+			}
+			mk := byte('c')
+			if x == 24 {
+				mk = 'a'
+			}
+			push(hop{kind: mk, i: i})
+			who := i
+			if r.Bool() {
+				who = objs
+			}
+			push(hop{kind: 't', i: who, j: r.Intn(plen[who] + 1)})
+			push(hop{kind: 'e', i: i, j: objs})
+			push(hop{kind: 'e', i: objs, j: i})
+		case x >= 22:
+			push(hop{kind: 't', i: i, j: r.Intn(plen[i] + 1)})
 		case x == 20 && objs < maxObjs:
-			ops = append(ops, hop{kind: 'w', i: i})
-			objs++
+			push(hop{kind: 'w', i: i})
 		case x == 21 && objs < maxObjs:
 			// a nil-metadata original, copied right away, the copy written
-			ops = append(ops, hop{kind: 'z', s1: genStr(r), payload: genPayload(r)}, hop{kind: 'c', i: objs})
-			objs += 2
-			if objs <= maxObjs {
-				ops = append(ops, hop{kind: 's', i: objs - 1, s1: heapKey(r), s2: heapVal(r)})
+			push(hop{kind: 'z', s1: genStr(r), payload: genPayload(r)})
+			push(hop{kind: 'c', i: objs})
+			if objs+2 <= maxObjs {
+				push(hop{kind: 's', i: objs + 1, s1: heapKey(r), s2: heapVal(r)})
 			}
 		case x < 2 && objs < maxObjs:
-			ops = append(ops, hop{kind: 'n', s1: genStr(r), payload: genPayload(r)})
-			objs++
+			push(hop{kind: 'n', s1: genStr(r), payload: genPayload(r)})
 		case x == 2 && objs < maxObjs:
-			ops = append(ops, hop{kind: 'z', s1: genStr(r), payload: genPayload(r)})
-			objs++
+			push(hop{kind: 'z', s1: genStr(r), payload: genPayload(r)})
 		case x < 6 && objs < maxObjs:
-			ops = append(ops, hop{kind: 'c', i: i})
-			objs++
+			push(hop{kind: 'c', i: i})
 		case x == 6 && objs < maxObjs:
-			ops = append(ops, hop{kind: 'a', i: i})
-			objs++
+			push(hop{kind: 'a', i: i})
 		case x < 13:
-			ops = append(ops, hop{kind: 's', i: i, s1: heapKey(r), s2: heapVal(r)})
+			push(hop{kind: 's', i: i, s1: heapKey(r), s2: heapVal(r)})
 		case x < 15:
-			ops = append(ops, hop{kind: 'g', i: i, s1: heapKey(r)})
+			push(hop{kind: 'g', i: i, s1: heapKey(r)})
 		case x < 18:
-			ops = append(ops, hop{kind: 'e', i: i, j: r.Intn(objs)})
+			push(hop{kind: 'e', i: i, j: r.Intn(objs)})
 		case x == 18:
-			ops = append(ops, hop{kind: 'u', i: i, s1: genStr(r)})
+			push(hop{kind: 'u', i: i, s1: genStr(r)})
 		default:
-			ops = append(ops, hop{kind: 'p', i: i, payload: genPayload(r)})
+			push(hop{kind: 'p', i: i, payload: genPayload(r)})
 		}
 	}
 	return ops
@@ -271,6 +306,19 @@ func enumHeap(out *wh.Out) {
 	heapCase(out, []hop{{kind: 'n', s1: "u"}, {kind: 'a', i: 0}, {kind: 'c', i: 1}, {kind: 's', i: 0, s1: "k", s2: "w"}, {kind: 'e', i: 0, j: 1}, {kind: 'e', i: 1, j: 2}}, "enum.copy_of_alias")
 	heapCase(out, []hop{{kind: 'z', s1: "u", payload: nil}, {kind: 'c', i: 0}, {kind: 'e', i: 0, j: 1}, {kind: 's', i: 1, s1: "k", s2: "v"}, {kind: 's', i: 0, s1: "k", s2: "v"}, {kind: 'e', i: 0, j: 1}}, "enum.copy_of_nil_metadata")
 	heapCase(out, nil, "enum.empty")
+	// two views of one payload buffer with the same start: Copy / shallow copy share the payload slice; one side is cut to every
+	// length 0..len; Equals both ways and against itself - payload BYTES decide, not where the slice starts
+	for _, mk := range []byte{'c', 'a'} {
+		for who := 0; who < 2; who++ {
+			for n := 0; n <= 4; n++ {
+				heapCase(out, []hop{{kind: 'n', s1: "u", payload: []byte("pqrs")}, {kind: 's', i: 0, s1: "k", s2: "v"}, {kind: mk, i: 0},
+					{kind: 't', i: who, j: n}, {kind: 'e', i: 0, j: 1}, {kind: 'e', i: 1, j: 0}, {kind: 'e', i: who, j: who},
+					{kind: 't', i: 1 - who, j: n}, {kind: 'e', i: 0, j: 1}}, "enum.same_buffer_views")
+			}
+		}
+	}
+	// payload bytes equal but not the same buffer / same buffer and same length
+	heapCase(out, []hop{{kind: 'n', s1: "u", payload: []byte("pq")}, {kind: 'n', s1: "u", payload: []byte("pqrs")}, {kind: 't', i: 1, j: 2}, {kind: 'e', i: 0, j: 1}, {kind: 'e', i: 1, j: 0}}, "enum.same_buffer_views")
 	// "the copy owns a usable, independent map" for every kind of original: NewMessage (empty map), struct literal (nil map),
 	// Metadata reset to nil is the same object state as the literal, a decoded envelope with "metadata": null / {} / entries,
 	// a shallow copy of each; then Copy, then a write to the copy, a write to the original, and both read back
